@@ -34,6 +34,8 @@
 #define PARTNAME outer
 #elif PART == 3
 #define PARTNAME red
+#elif PART == 4
+#define PARTNAME tight
 #endif
 #define XSTR_(x) #x
 #define XSTR(x) XSTR_(x)
@@ -217,8 +219,14 @@ static u64 call_binary2(int simd, const u64* xs, const T* x, const u64* ys, cons
 /* binary op on 2-d operands; shapes are per-query constants: lhs (LR,LC), rhs (RR,RC) (same shape or NumPy-broadcastable) */
 #ifndef LR
 #define LR 2
+#endif
+#ifndef LC
 #define LC 9
+#endif
+#ifndef RR
 #define RR 2
+#endif
+#ifndef RC
 #define RC 1
 #endif
 #define MX(a,b) ((a) > (b) ? (a) : (b))
@@ -226,11 +234,12 @@ static u64 call_binary2(int simd, const u64* xs, const T* x, const u64* ys, cons
 void h_binary2(void){
   T x[LR*LC], y[RR*RC], o1[MAXC2], o2[MAXC2]; u64 xs[2] = {LR, LC}, ys[2] = {RR, RC}, s1[2] = {0,0}, s2[2] = {0,0}, d1 = 0, d2 = 0;
   const int rows = MX(LR,RR), cols = MX(LC,RC);
-#ifdef KF_C12_BCAST_11                  /* finding: an operand of shape (1,1) against (r,c), r > 1: the SIMD enumerator reads operand[row] */
-  ASSUME(!((LR*LC == 1 && RR > 1) || (RR*RC == 1 && LR > 1)));
-#endif
   for (int i = 0; i < LR*LC; i++) x[i] = in_T();
   for (int i = 0; i < RR*RC; i++) y[i] = in_T();
+#ifdef KF_C12_BCAST_11                  /* finding: an operand of shape (1,1) against (r,c), r > 1: the SIMD enumerator reads operand[row], i.e. the */
+  if (LR*LC == 1 && RR > 1) ASSUME(bits_T(x[0]) == 0);   /* value-initialised (+0.0) buffer cells behind the single element; the results differ    */
+  if (RR*RC == 1 && LR > 1) ASSUME(bits_T(y[0]) == 0);   /* unless that element is itself +0.0                                                       */
+#endif
   for (int i = 0; i < rows*cols; i++){ o1[i] = 0; o2[i] = 0; }
   u64 m2 = call_binary2(0, xs, x, ys, y, o2, s2, &d2);
   u64 m1 = call_binary2(1, xs, x, ys, y, o1, s1, &d1);
@@ -244,6 +253,8 @@ void h_binary2(void){
 #if PART == 2
 #ifndef ON
 #define ON 3
+#endif
+#ifndef OM
 #define OM 9
 #endif
 static u64 call_outer(int simd, const T* x, u64 n, const T* y, u64 m, T* out, u64* os, u64* od){
@@ -272,6 +283,8 @@ void h_outer(void){
 }
 #ifndef OR
 #define OR 2
+#endif
+#ifndef OC
 #define OC 3
 #endif
 static u64 call_outer2(int simd, const u64* xs, const T* x, const T* y, u64 m, T* out, u64* os, u64* od){
@@ -309,6 +322,8 @@ void h_outer2(void){
 #endif
 #ifndef S0
 #define S0 3
+#endif
+#ifndef S1
 #define S1 9
 #endif
 #ifndef S2
@@ -339,6 +354,9 @@ void h_reduce2(void){
   for (int i = 0; i < S0*S1; i++){ x[i] = in_small(); o1[i] = 0; o2[i] = 0; }
   int nd = 0; u64 numel = 1;
   for (int i = 0; i < 2; i++){ if (i == ax){ if (KD) ex[nd++] = 1; } else { ex[nd++] = xs[i]; numel *= xs[i]; } }
+#if defined(KF_C12_MULREDUCE_FULL) && OP == OP_multiply   /* finding: a multiply reduction down to ONE element starts from set1(0): the SIMD product is 0 */
+  if (numel == 1){ int z = 0; for (int i = 0; i < S0*S1; i++) z |= (x[i] == 0); ASSUME(z); }
+#endif
   u64 m2 = call_reduce2(0, xs, x, (u32)(AXIS), o2, s2, &d2);
   u64 m1 = call_reduce2(1, xs, x, (u32)(AXIS), o1, s1, &d1);
   ASSERT(m2 == numel && d2 == (u64)nd, "scalar reduction returns NumPy's shape");
@@ -381,6 +399,9 @@ void h_reduce3(void){
 void h_reduceall(void){
   T x[S0*S1], o1[2] = {0,0}, o2[2] = {0,0}; u64 xs[2] = {S0, S1}, s1[2] = {0,0}, s2[2] = {0,0}, d1 = 0, d2 = 0;
   for (int i = 0; i < S0*S1; i++) x[i] = in_small();
+#if defined(KF_C12_MULREDUCE_FULL) && OP == OP_multiply   /* finding: a multiply reduction down to ONE element starts from set1(0): the SIMD product is 0 */
+  { int z = 0; for (int i = 0; i < S0*S1; i++) z |= (x[i] == 0); ASSUME(z); }
+#endif
 #if OP == OP_add && KD
   u64 m2 = KR(reduceall_add_kd)(xs, x, o2, s2, &d2), m1 = KS(reduceall_add_kd)(xs, x, o1, s1, &d1);
 #elif OP == OP_add
@@ -401,3 +422,32 @@ void h_reduceall(void){
 }
 #endif
 #endif /* PART 3 */
+
+#if PART == 4
+#ifndef TIGHTN
+#define TIGHTN 5
+#endif
+/* tight buffers: operands are std::array objects of exactly TIGHTN cells (per-query constant selecting the kernel instance); any packed
+ * load/store or tail access outside [0,TIGHTN) is a CBMC object-bounds violation of the translated evaluator */
+#define KT_(op,n,w,sfx) k_tight_##op##_##n##_f_##w##sfx
+#define KT__(op,n,w,sfx) KT_(op,n,w,sfx)
+#define KT(op,w) KT__(op,TIGHTN,w,SFX)
+void h_tight(void){
+  T x[TIGHTN], y[TIGHTN], o1[TIGHTN], o2[TIGHTN]; u64 s1[2] = {0,0}, s2[2] = {0,0}, d1 = 0, d2 = 0;
+  for (int i = 0; i < TIGHTN; i++){ x[i] = in_T(); y[i] = in_T(); o1[i] = 0; o2[i] = 0;
+#if defined(KF_C12_RELU_NEGZERO) && OP == OP_relu   /* finding (vector-extension contexts): relu(-0.0) is +0.0 scalar, -0.0 = fmax(-0.0, 0.0) SIMD */
+    ASSUME(!(bits_T(x[i]) == ((TB)1 << (sizeof(T)*8-1))));
+#endif
+  }
+#if OP == OP_relu
+  u64 m1 = KT(relu,simd)(x, o1, s1, &d1), m2 = KT(relu,ref)(x, o2, s2, &d2);
+#else
+  u64 m1 = KT(add,simd)(x, y, o1, s1, &d1), m2 = KT(add,ref)(x, y, o2, s2, &d2);
+#endif
+  ASSERT(m2 == TIGHTN && d2 == 1 && s2[0] == TIGHTN, "scalar evaluation returns the operands' shape");
+  ASSERT(m1 == m2 && d1 == d2 && s1[0] == s2[0], "SIMD result has the shape of the scalar result");
+  for (int i = 0; i < TIGHTN; i++){ ASSERT(same(o1[i], o2[i]), "SIMD element is bit-identical to the scalar element"); OBSV(o1[i]); }
+  REACHED();
+}
+#endif /* PART 4 */
+
